@@ -13,7 +13,7 @@
    number of cells the frame had when the scope was formed: the reference evaluator only sees that prefix (lexical
    scoping), the Go code sees the whole map (a closure made while a dolist/dotimes/do* frame is still being filled
    later sees the cells added afterwards).  No definition in this file is mode-dependent except through the small
-   functions [store_red], [truthy], [locate_m], [short_args]:
+   functions [store_red], [locate_m], [short_args]:
    they are the complete list of places where M and S differ.
 
    Side effects are calls of the harness-defined function (tr k e): evaluates e, appends k to the trace, returns
@@ -186,13 +186,9 @@ Definition store_red (m : mode) (v : val) : out val :=
   | Ref => Ok (primary v)
   | Chk => if is_values v then Er EDev else Ok v
   end.
-(* tests (if when unless cond and or do): Go compares the object with nil, so a Values object is true *)
-Definition truthy (m : mode) (v : val) : out bool :=
-  match m with
-  | Slip => Ok (negb (is_nil v))
-  | Ref => Ok (negb (is_nil (primary v)))
-  | Chk => if is_values v && is_nil (primary v) then Er EDev else Ok (negb (is_nil v))
-  end.
+(* tests of if, when, unless, cond, and, do, do* : the primary value is compared with nil (the same in every mode since the
+   repair that routes the tests through firstValue; the mode argument is kept for uniformity with the other switches) *)
+Definition truthy (m : mode) (v : val) : out bool := Ok (negb (is_nil (primary v))).
 (* or, a form that is not the last one: Some r = stop with r.  The primary value is tested and returned (the same in
    every mode since the repair of or.go; the mode argument is kept for uniformity with the other switches) *)
 Definition or_step (m : mode) (v : val) : out (option val) :=
